@@ -22,6 +22,7 @@ void arm_watchdog(int seconds) {
     it.it_value.tv_sec = seconds;
     setitimer(ITIMER_VIRTUAL, &it, nullptr);
 }
+static bool g_keep_owned = false;        // minimisation must keep the history one that the plan's property is about (Engine::owned)
 static int g_watchdog_override = 0;      // > 0 while a run that hangs is being minimised (each still-hanging candidate costs this much CPU time)
 static uint64_t g_minimise_budget = 260;
 static int watchdog_seconds() { if (g_watchdog_override > 0) return g_watchdog_override; const char *e = getenv("VERIF_WATCHDOG_S"); int v = e ? atoi(e) : 10; return v > 0 ? v : 10; }
@@ -193,8 +194,10 @@ std::string crash_clause(const Plan &p, const ChildRes &c) {
 Plan minimise(const Plan &start, const std::string &prop, const std::string &clause, uint64_t *runs_used) {
     Plan best = start;
     uint64_t runs = 0; const uint64_t BUDGET = g_minimise_budget;
+    const Engine *eng0 = find_engine(start.engine);
     auto still = [&](const Plan &q) -> bool {
         if (runs >= BUDGET) return false;
+        if (g_keep_owned && eng0 && eng0->owned && !eng0->owned(q, clause)) return false;
         runs++;
         ChildRes c = run_in_child(q, prop, false);
         return !c.invalid && c.clause == clause;
@@ -416,7 +419,28 @@ int run_check(const CheckSpec &spec, const RunOptions &opt) {
             g_watchdog_override = 2; g_minimise_budget = 60;
             m = minimise(p, prop, c1.clause, &used);
             g_watchdog_override = 0; g_minimise_budget = 260;
-        } else m = minimise(p, prop, c1.crashed ? c1.clause : clause, &used);
+        } else {
+            Plan start = p;
+            if (e->owned && !c1.crashed && p.ops2.empty() && p.ops.size() > 1) {
+                // A history of lookups / raw extractions interleaved with navigation that diverges is a violation of the
+                // property those operations belong to if one of them was executed before the divergence - even when the
+                // divergence is raised by a navigation step and could also be reached without them. So: cut the history
+                // after the failing step (a run stops at its first failure, hence the shortest failing prefix is found by
+                // bisection), and if that prefix contains one of the property's operations, minimise under the constraint
+                // that it keeps one. Only a history that fails before any of them is left to the navigation check (C06).
+                size_t lo = 1, hi = p.ops.size();
+                while (lo < hi) {
+                    size_t mid = lo + (hi - lo) / 2;
+                    Plan q = p; q.ops.resize(mid);
+                    ChildRes cq = run_in_child(q, prop, false); used++;
+                    if (!cq.invalid && !cq.crashed && cq.clause == clause) hi = mid; else lo = mid + 1;
+                }
+                start.ops.resize(hi);
+                g_keep_owned = e->owned(start, clause);
+            }
+            m = minimise(start, prop, c1.crashed ? c1.clause : clause, &used);
+            g_keep_owned = false;
+        }
         shrink_runs += used;
         ChildRes c3 = run_in_child(m, prop, true);
         std::string clause3 = c3.crashed ? resolve_crash_owner(m, prop, c3) : c3.clause;
